@@ -1,8 +1,11 @@
 // C13: traversals and metrics.  One case per generated tree:
 //   (case <id> tree <K> (arena <root> (node idx parent (children..) leaf) ..) (metrics ..) (runs (run kind start (script) (obs..)) ..))
 //   (case <id> poly 2 (arena ..) (runs (run poly <root> (script) (obs..)) ..))
-// obs after every command (the returned item with all fields, then size_hint()):
+// obs: first (i lb ub) = size_hint() right after new(), then after every command (the returned item with all fields,
+// then size_hint()):
 //   (n depth index n_remaining lb ub) | (g src label dest lb ub) | (e lb ub) = next() returned None | (s lb ub) = skip_subtree | p = panic
+// Cases w0.. (emitted by shard 0 only) are fixed trees: the 10-node tree of the iter.rs tests, a root with two leaves,
+// a K = 3 tree with missing children and a re-used index, a single node; every start node, skips at every position.
 #[path = "../common.rs"]
 mod common;
 use affinitree::pwl::afftree::AffTree;
@@ -107,6 +110,10 @@ fn run_trav<T: TraversalMut, N, const K: usize>(
         Ok(it) => it,
         Err(_) => return "p".to_string(),
     };
+    match catch(AssertUnwindSafe(|| it.size_hint())) {
+        Ok(h) => write!(out, "(i {}) ", hint(h)).unwrap(),
+        Err(_) => return "p".to_string(),
+    }
     for c in sc {
         let res = catch(AssertUnwindSafe(|| match c {
             Cmd::Next => match it.next(tree) {
@@ -138,6 +145,10 @@ fn run_poly(tree: &AffTree<2>, sc: &[Cmd]) -> String {
         Ok(it) => it,
         Err(_) => return "p".to_string(),
     };
+    match catch(AssertUnwindSafe(|| it.size_hint())) {
+        Ok(h) => write!(out, "(i {}) ", hint(h)).unwrap(),
+        Err(_) => return "p".to_string(),
+    }
     for c in sc {
         let res = catch(AssertUnwindSafe(|| match c {
             Cmd::Next => match it.next() {
@@ -257,27 +268,32 @@ fn sx_metrics<N, const K: usize>(t: &Tree<N, K>) -> String {
 
 fn tree_case<const K: usize>(r: &mut Rng, id: usize, out: &mut String) {
     let t: Tree<u32, K> = gen_arena(r);
-    write!(out, "(case {} tree {} {} {} (runs", id, K, sx_arena(&t), sx_metrics(&t)).unwrap();
+    emit_tree_case(&t, r, &id.to_string(), false, out);
+}
+
+fn emit_tree_case<const K: usize>(t: &Tree<u32, K>, r: &mut Rng, id: &str, all_full: bool, out: &mut String) {
+    let t = t;
+    write!(out, "(case {} tree {} {} {} (runs", id, K, sx_arena(t), sx_metrics(t)).unwrap();
     let nodes: Vec<TreeIndex> = t.node_indices().collect();
     for &start in &nodes {
         let m = catch(AssertUnwindSafe(|| t.num_nodes(start))).unwrap_or(3);
-        let full = start == t.get_root_idx() || r.chance(1, 2);
+        let full = all_full || start == t.get_root_idx() || r.chance(1, 2);
         for sc in gen_scripts(r, m, full) {
-            write!(out, " (run pre {} {} ({}))", start, sx_script(&sc), run_trav::<DfsPre, u32, K>(&t, start, &sc, &item_node)).unwrap();
+            write!(out, " (run pre {} {} ({}))", start, sx_script(&sc), run_trav::<DfsPre, u32, K>(t, start, &sc, &item_node)).unwrap();
         }
         for sc in gen_scripts(r, m, full) {
-            write!(out, " (run bfs {} {} ({}))", start, sx_script(&sc), run_trav::<Bfs, u32, K>(&t, start, &sc, &item_node)).unwrap();
+            write!(out, " (run bfs {} {} ({}))", start, sx_script(&sc), run_trav::<Bfs, u32, K>(t, start, &sc, &item_node)).unwrap();
         }
         for sc in gen_scripts(r, m.saturating_sub(1), full) {
-            write!(out, " (run edge {} {} ({}))", start, sx_script(&sc), run_trav::<DfsEdge, u32, K>(&t, start, &sc, &item_edge)).unwrap();
+            write!(out, " (run edge {} {} ({}))", start, sx_script(&sc), run_trav::<DfsEdge, u32, K>(t, start, &sc, &item_edge)).unwrap();
         }
     }
     // a start index that is not in the tree: new/next must fail the same way in model and code
     let absent = (0..).find(|i| !t.contains(*i)).unwrap();
     let sc = vec![Cmd::Next, Cmd::Skip, Cmd::Next];
-    write!(out, " (run pre {} {} ({}))", absent, sx_script(&sc), run_trav::<DfsPre, u32, K>(&t, absent, &sc, &item_node)).unwrap();
-    write!(out, " (run bfs {} {} ({}))", absent, sx_script(&sc), run_trav::<Bfs, u32, K>(&t, absent, &sc, &item_node)).unwrap();
-    write!(out, " (run edge {} {} ({}))", absent, sx_script(&sc), run_trav::<DfsEdge, u32, K>(&t, absent, &sc, &item_edge)).unwrap();
+    write!(out, " (run pre {} {} ({}))", absent, sx_script(&sc), run_trav::<DfsPre, u32, K>(t, absent, &sc, &item_node)).unwrap();
+    write!(out, " (run bfs {} {} ({}))", absent, sx_script(&sc), run_trav::<Bfs, u32, K>(t, absent, &sc, &item_node)).unwrap();
+    write!(out, " (run edge {} {} ({}))", absent, sx_script(&sc), run_trav::<DfsEdge, u32, K>(t, absent, &sc, &item_edge)).unwrap();
     out.push_str("))\n");
 }
 
@@ -302,12 +318,64 @@ fn poly_case(r: &mut Rng, id: usize, out: &mut String) {
     out.push_str("))\n");
 }
 
+/// fixed trees (the corpus that runs first): see the header
+fn fixed_cases(r: &mut Rng, out: &mut String) {
+    // w0: the tree of the iter.rs tests
+    let mut t = Tree::<u32, 2>::new();
+    let z = t.add_root(10);
+    let c0 = t.add_child_node(z, 0, 11).unwrap();
+    let c1 = t.add_child_node(z, 1, 12).unwrap();
+    let l0 = t.add_child_node(c0, 0, 13).unwrap();
+    let _l1 = t.add_child_node(c0, 1, 14).unwrap();
+    let _r0 = t.add_child_node(c1, 0, 15).unwrap();
+    let _r1 = t.add_child_node(c1, 1, 16).unwrap();
+    let l2 = t.add_child_node(l0, 1, 17).unwrap();
+    let _ = t.add_child_node(l2, 0, 18).unwrap();
+    let _ = t.add_child_node(l2, 1, 19).unwrap();
+    emit_tree_case(&t, r, "w0", true, out);
+    // w1: a root with two leaves
+    let mut t = Tree::<u32, 2>::new();
+    let z = t.add_root(0);
+    t.add_child_node(z, 0, 1).unwrap();
+    t.add_child_node(z, 1, 2).unwrap();
+    emit_tree_case(&t, r, "w1", true, out);
+    // w2: K = 3, missing children, a removed subtree whose indices are used again in another place
+    let mut t = Tree::<u32, 3>::new();
+    let z = t.add_root(0);
+    let a = t.add_child_node(z, 2, 1).unwrap();
+    let b = t.add_child_node(z, 0, 2).unwrap();
+    let c = t.add_child_node(a, 1, 3).unwrap();
+    t.add_child_node(c, 0, 4).unwrap();
+    t.add_child_node(c, 2, 5).unwrap();
+    t.remove_child(a, 1);
+    let d = t.add_child_node(b, 1, 6).unwrap();
+    t.add_child_node(d, 2, 7).unwrap();
+    t.add_child_node(a, 0, 8).unwrap();
+    t.add_child_node(b, 2, 9).unwrap();
+    emit_tree_case(&t, r, "w2", true, out);
+    // w3: a single node
+    let mut t = Tree::<u32, 2>::new();
+    t.add_root(0);
+    emit_tree_case(&t, r, "w3", true, out);
+    // w4: a chain
+    let mut t = Tree::<u32, 2>::new();
+    let mut cur = t.add_root(0);
+    for i in 0..4 {
+        cur = t.add_child_node(cur, (i % 2) as usize, i as u32).unwrap();
+    }
+    emit_tree_case(&t, r, "w4", true, out);
+}
+
 fn main() {
     silence_panics();
     let argv: Vec<String> = std::env::args().collect();
     let args = &parse_args(&argv[1..]);
     let mut r = Rng::new(args.seed ^ 0xC13);
     let mut out = String::new();
+    if args.seed % 1000 == 0 {
+        let mut cr = r.fork();
+        fixed_cases(&mut cr, &mut out);
+    }
     for id in 0..args.n {
         let mut cr = r.fork();
         match id % 5 {
